@@ -113,7 +113,7 @@ bool mcount_rstack_has_plthook(struct mcount_thread_data *mtdp)
 {
 	int idx;
 
-	for (idx = 0; idx < mtdp->idx; idx++) {
+	for (idx = 0; idx < mcount_rstack_depth(mtdp); idx++) {
 		if (mtdp->rstack[idx].dyn_idx != MCOUNT_INVALID_DYNIDX)
 			return true;
 	}
@@ -131,7 +131,7 @@ void mcount_rstack_restore(struct mcount_thread_data *mtdp)
 		return;
 
 	/* reverse order due to tail calls */
-	for (idx = mtdp->idx - 1; idx >= 0; idx--) {
+	for (idx = mcount_rstack_depth(mtdp) - 1; idx >= 0; idx--) {
 		rstack = &mtdp->rstack[idx];
 
 		if (rstack->parent_ip == mcount_return_fn || rstack->parent_ip == plthook_return_fn)
@@ -147,16 +147,16 @@ void mcount_rstack_restore(struct mcount_thread_data *mtdp)
 			 */
 			unsigned long *loc, *end;
 
-			if (idx < mtdp->idx - 1) {
+			if (idx < mcount_rstack_depth(mtdp) - 1) {
 				struct mcount_ret_stack *next_rstack;
 
 				next_rstack = rstack + 1;
 				/* skip rstacks for -finstrument-functions */
 				while (next_rstack->parent_loc == &mtdp->cygprof_dummy &&
-				       next_rstack < &mtdp->rstack[mtdp->idx])
+				       next_rstack < &mtdp->rstack[mcount_rstack_depth(mtdp)])
 					next_rstack++;
 
-				if (next_rstack == &mtdp->rstack[mtdp->idx])
+				if (next_rstack == &mtdp->rstack[mcount_rstack_depth(mtdp)])
 					goto last_rstack;
 
 				/* special case: same as tail-call */
@@ -198,7 +198,7 @@ void mcount_rstack_rehook(struct mcount_thread_data *mtdp)
 	if (unlikely(mcount_estimate_return))
 		return;
 
-	for (idx = mtdp->idx - 1; idx >= 0; idx--) {
+	for (idx = mcount_rstack_depth(mtdp) - 1; idx >= 0; idx--) {
 		rstack = &mtdp->rstack[idx];
 
 		if (rstack->dyn_idx == MCOUNT_INVALID_DYNIDX)
